@@ -179,6 +179,14 @@ def main(argv=None):
         ctx = mp.get_context("fork")
         with ctx.Pool(jobs, initializer=_worker_init) as pool:
             results = list(pool.imap_unordered(_run_shard, work, chunksize=1))
+    if os.environ.get("VERIF_TIMES"):
+        tot = {}
+        for r in results:
+            key = " ".join(r["_shard"].split(",")[1:2])
+            tot[key] = tot.get(key, 0) + r["_wall"]
+        print("shard wall by kind:", {k: round(v, 1) for k, v in tot.items()})
+        for r in sorted(results, key=lambda r: -r["_wall"])[:6]:
+            print("  slow shard %.1fs %s" % (r["_wall"], r["_shard"]))
     harness_errors = [r for r in results if not r["_ok"] and not r.get("_hang")]
     hangs = [r for r in results if r.get("_hang")]
     m = merge([r for r in results if r["_ok"]])
